@@ -64,6 +64,10 @@ pub struct Sc {
     /// returned to it: returns then outnumber calls and the shadow call stack is empty
     #[serde(default)]
     pub prelude_ret: bool,
+    /// c19: the built-in syscall handlers (brk, pipe, arch_prctl, exit) are installed before the scripted
+    /// hook, and an empty area sits at the address their placement loops probe first
+    #[serde(default)]
+    pub builtin: bool,
 }
 
 pub struct E5Engine;
@@ -648,11 +652,12 @@ fn gen_insn(mode: &str, ci: usize, shape: Option<usize>, fault: &str, r: &mut Rn
         shrunk: (fault == "straddle_area_end" && k % 3 == 1) || (fault.starts_with("perm_revoke") && k % 2 == 1),
         neighbour: fault == "straddle_area_end" && k % 3 == 2,
         prelude_ret: k % 4 == 3,
+        builtin: false,
     })
 }
 
 fn trivial(mode: &str) -> Sc {
-    Sc { mode: mode.into(), code_name: "Nopd".into(), shape: "reg".into(), fault: "none".into(), bytes: "90".into(), gpr: vec![0, 0, 0, 0, 0, 0, STACK + 0x800, 0, 0, 0, 0, 0, 0, 0, 0, 0], xmm_seed: 1, flags: 0, fs: 0, gs: 0, data_seed: 1, prot_data: 3, prot_stack: 3, prot_code: 5, extra_steps: 0, flips: vec![], flip_at: 0, poke: vec![], no_pad: false, shrunk: false, neighbour: false, prelude_ret: false }
+    Sc { mode: mode.into(), code_name: "Nopd".into(), shape: "reg".into(), fault: "none".into(), bytes: "90".into(), gpr: vec![0, 0, 0, 0, 0, 0, STACK + 0x800, 0, 0, 0, 0, 0, 0, 0, 0, 0], xmm_seed: 1, flags: 0, fs: 0, gs: 0, data_seed: 1, prot_data: 3, prot_stack: 3, prot_code: 5, extra_steps: 0, flips: vec![], flip_at: 0, poke: vec![], no_pad: false, shrunk: false, neighbour: false, prelude_ret: false, builtin: false }
 }
 
 fn gen_c06(seed: u64, idx: u64, thorough: bool) -> Sc {
@@ -831,6 +836,15 @@ fn gen_c19(seed: u64, idx: u64, thorough: bool) -> Sc {
     // behind its end then address memory that existed a moment ago
     sc.shrunk = sc.mode == "c19" && r.chance(1, 4);
     sc.prelude_ret = sc.mode == "c19" && r.chance(1, 6);
+    sc.builtin = sc.mode == "c19" && r.chance(1, 5);
+    if sc.builtin && r.chance(1, 2) {
+        // a system call the built-in handlers know, with pointer-like arguments as drawn above
+        sc.gpr[0] = *r.pick(&[12u64, 12, 22, 0, 1, 158, 60]);
+        if r.chance(1, 2) {
+            sc.bytes = "0f05".into();
+            sc.code_name = "syscall_builtin".into();
+        }
+    }
     sc
 }
 
@@ -911,6 +925,11 @@ fn setup_masked(sc: &Sc, ctx: &mut Ctx, hooks: bool, only: Option<([bool; 16], [
         ax.verif_set_rflags(sc.flags);
         ax.write_fs(sc.fs);
         ax.write_gs(sc.gs);
+        if sc.builtin {
+            use ax_x86::helpers::syscalls::Syscall;
+            let _ = ax.mem_init_zero(0x1000, 0);
+            ax.handle_syscalls(vec![Syscall::Brk, Syscall::Pipe, Syscall::ArchPrctl, Syscall::Exit]).map_err(|e| e.to_string())?;
+        }
         if hooks {
             for m in [Mnemonic::Syscall, Mnemonic::Int, Mnemonic::Int3, Mnemonic::Int1] {
                 if let Some(sm) = supported(m) {
@@ -932,6 +951,10 @@ fn setup_masked(sc: &Sc, ctx: &mut Ctx, hooks: bool, only: Option<([bool; 16], [
         if sc.neighbour {
             ax.mem_init_area(DATA + DATA_LEN, Rng::new(sc.data_seed ^ 9).bytes(0x100)).map_err(|e| e.to_string())?;
             ax.mem_prot(DATA + DATA_LEN, 0).map_err(|e| e.to_string())?;
+            // the host (or brk) then tried to grow the data area into it: refused, and nothing may have moved
+            if matches!(catch(|| ax.mem_resize_section(DATA, DATA_LEN + 0x80)), Ok(Ok(()))) {
+                ctx.probe("grow_into_neighbour_accepted");
+            }
         }
         ax.mem_prot(STACK, sc.prot_stack & 7).map_err(|e| e.to_string())?;
         ax.mem_prot(CODE, sc.prot_code & 7).map_err(|e| e.to_string())?;
@@ -1260,6 +1283,9 @@ fn run_c19(sc: &Sc, ctx: &mut Ctx) {
         None => return,
     };
     ctx.nontrivial = true;
+    if sc.builtin {
+        ctx.fault("builtin_syscall_handlers_installed");
+    }
     let bytes = from_hex(&sc.bytes);
     let midrun = sc.mode == "c19_midrun";
     let total = if midrun { sc.flip_at + sc.extra_steps } else { 1 + sc.extra_steps };
